@@ -39,6 +39,7 @@ type Conn struct {
 	rdl    time.Time
 	wdl    time.Time
 	after  bool
+	parked int // readers currently blocked waiting for data
 
 	peer        *Conn // buffered pipe mode: writes are fed to the peer
 	NoLog       bool  // do not keep Written / write events (long streams)
@@ -143,8 +144,10 @@ func (c *Conn) Read(p []byte) (int, error) {
 		w := c.wake
 		dl := c.rdl
 		c.mu.Unlock()
+		c.park(1)
 		if dl.IsZero() {
 			<-w
+			c.park(-1)
 			continue
 		}
 		tm := time.NewTimer(time.Until(dl))
@@ -153,6 +156,7 @@ func (c *Conn) Read(p []byte) (int, error) {
 			tm.Stop()
 		case <-tm.C:
 		}
+		c.park(-1)
 	}
 }
 
@@ -252,6 +256,11 @@ func (c *Conn) Snapshot() ([]byte, []Event) {
 	defer c.mu.Unlock()
 	return append([]byte{}, c.Written...), append([]Event{}, c.Events...)
 }
+
+func (c *Conn) park(d int) { c.mu.Lock(); c.parked += d; c.mu.Unlock() }
+
+// Parked reports how many readers are blocked waiting for peer data.
+func (c *Conn) Parked() int { c.mu.Lock(); defer c.mu.Unlock(); return c.parked }
 
 // Closed reports whether Close was called.
 func (c *Conn) Closed() bool { c.mu.Lock(); defer c.mu.Unlock(); return c.closed }
